@@ -79,6 +79,22 @@ pub fn notable_values(key: &str, width: usize) -> Vec<u64> {
     v
 }
 
+/// a message of branch `b` whose 30-bit fields (sender, addressees, interrogated and assigned
+/// stations ...) all come from a small pool: consecutive messages built this way refer to one
+/// another the way the messages of a real exchange do (inquiry -> response, addressed -> acknowledge)
+pub fn fresh_with_pool(b: &Branch, r: &mut Rng, pool: &[u64]) -> Bits {
+    let mut bits = fresh(b, r);
+    for f in fields_of(b, r, None) {
+        if f.width == 30 && f.start >= 8 {
+            bits.put(f.start as usize, 30, *r.pick(pool));
+        }
+    }
+    for (s, w, v) in b.force {
+        bits.put(*s, *w, *v);
+    }
+    bits
+}
+
 /// dates with a meaning of their own in time keeping: Unix and GPS epochs, GPS week roll-overs,
 /// the turn of the millennium and its leap day, the end of 32-bit Unix time
 pub const EPOCH_DATES: [(u64, u64, u64); 10] = [(1970, 1, 1), (1980, 1, 6), (1999, 8, 21), (1999, 8, 22), (1999, 12, 31), (2000, 1, 1), (2000, 2, 29), (2019, 4, 6), (2019, 4, 7), (2038, 1, 19)];
